@@ -67,7 +67,7 @@ CHECKS = {
         note="DROP of an unwired table and tag/self-loop inheritance on RENAME are relational (either outcome accepted); facts come from the statement tap.",
     ),
     "C07": dict(
-        technique="metamorphic monitor: token-level layout/comment/case/quoting rewrites driven by sqlfluff's lexer+parser, original vs rewritten run through the real package",
+        technique="metamorphic monitor: token-level layout/comment/case/quoting/semicolon rewrites driven by sqlfluff's lexer+parser, original vs rewritten statement or multi-statement script run through the real package",
         category="exploration",
         text="Each corpus/TPC-DS statement is rewritten (whitespace, block/line comments containing ; and quotes, comment insertion next to , ( ), upper/lower/swap/mixed case, "
              "identifier quoting, trailing semicolons, combinations; every single boundary in thorough) and tables, table edges and named column pairs must not change.",
@@ -100,7 +100,7 @@ CHECKS = {
         note="sqlfluff's Linter.parse_string is trusted as the independent parse oracle (single-statement inputs only). The mutation workload is a deterministic function of (corpus, tier) plus a VERIF_SEED-driven slice.",
     ),
     "C11": dict(
-        technique="differential monitor across worker processes with different PYTHONHASHSEED + in-process repetition and accessor-order permutation",
+        technique="differential monitor across worker processes with different PYTHONHASHSEED + in-process repetition (fresh provider, and three runs through one reused provider object) + accessor-order permutation incl. the flag variants of get_column_lineage",
         category="exploration",
         text="The canonical public record (summaries, column paths, both exports, text summary, outcome) of every corpus/TPC-DS/order-sensitive case is "
              "compared across processes started with different hash seeds, across a repetition in the same process and across permuted/repeated accessor calls.",
@@ -108,7 +108,7 @@ CHECKS = {
         note="Anonymous subquery names are canonicalised from the node's own text; exports compared as sorted node/edge lists without edge ids; path order is compared only when no generated name takes part in it.",
     ),
     "C12": dict(
-        technique="history + session-balance monitors over recorded session events, fault injection at statements/lookups/line events (sys.monitoring), 16-thread stress with yield injection",
+        technique="history + session-balance monitors over recorded session events, fault injection at statements/lookups/line events (sys.monitoring), 16-thread stress with yield injection (one reused provider per thread, session store checked after every run)",
         category="fault_enumeration",
         text="Run B after a history of runs (failing statement at every position, provider raising at every lookup, InjectedFault at line events inside the run's work) "
              "on default/shared/fresh providers must equal B in a fresh process; at every return or raise the session tap must balance and the provider must answer as "
@@ -142,7 +142,7 @@ CHECKS = {
         note="Schedules are complete only per listed program tuple at operation granularity; sub-operation gates are sampled (bound 2); a fresh instance of the config class per schedule.",
     ),
     "C16": dict(
-        technique="reference-model monitor for names: exhaustive spelling x quote style x name parts x syntactic position grid against a 12-line reference normaliser",
+        technique="reference-model monitor for names: exhaustive spelling x quote style x name parts x syntactic position grid against a 12-line reference normaliser; parsed-vs-built eq/hash compatibility monitor on the live model objects",
         category="exploration",
         text="Every spelling of a table, column and alias name (case pattern x quote style the dialect lexes x 1-3 parts) is placed at every syntactic position (FROM, target, column, "
              "qualifier, alias, column list, written-then-read across two statements) and the printed tables and column pairs are compared with the reference normaliser's prediction.",
